@@ -7,6 +7,7 @@ import (
 	"bytes"
 	"encoding/binary"
 	"fmt"
+	"sync/atomic"
 
 	"github.com/absfs/absfs"
 	"github.com/absfs/absnfs"
@@ -70,18 +71,18 @@ type Reply struct {
 
 // Call sends one procedure call through the real HandleCall.
 func (s *Srv) Call(prog, vers, proc uint32, cred Cred, args []byte) Reply {
-	s.xid++
+	xid := atomic.AddUint32(&s.xid, 1)
 	call := &absnfs.RPCCall{
-		Header:     absnfs.RPCMsgHeader{Xid: s.xid, MsgType: 0, RPCVersion: 2, Program: prog, Version: vers, Procedure: proc},
+		Header:     absnfs.RPCMsgHeader{Xid: xid, MsgType: 0, RPCVersion: 2, Program: prog, Version: vers, Procedure: proc},
 		Credential: absnfs.RPCCredential{Flavor: cred.Flavor, Body: cred.body()},
 		Verifier:   absnfs.RPCVerifier{Flavor: 0, Body: []byte{}},
 	}
 	ctx := &absnfs.AuthContext{ClientIP: s.IP, ClientPort: s.Port, Credential: &call.Credential}
 	rep, err := s.H.HandleCall(call, bytes.NewReader(args), ctx)
 	if err != nil {
-		return Reply{Err: err, Xid: s.xid}
+		return Reply{Err: err, Xid: xid}
 	}
-	out := Reply{Status: rep.Status, AcceptStatus: rep.AcceptStatus, Xid: s.xid}
+	out := Reply{Status: rep.Status, AcceptStatus: rep.AcceptStatus, Xid: xid}
 	if d, ok := rep.Data.([]byte); ok {
 		out.Data = d
 	}
